@@ -120,4 +120,5 @@ def obligations(tier):
                               "bare_lf_refused_nothing_queued", "eof_after_data"]),
     # the DATA command itself: 354 is sent only when the body will then be consumed up to its terminator (queue connection open) -
     # otherwise the client's message would be read as commands (C07's smtp_data harness, decided here as well)
-    ] + borrow("C07", ["smtp_data"], tier)
+    ] + borrow("C07", ["smtp_data"], tier) \
+      + borrow("C09", ["timeoutread_unit", "timeoutwrite_unit", "smtpd_safeio"], tier)   # stalls/disconnects: what the read hook "ends the run" stands for
